@@ -1,7 +1,9 @@
 import CkbVerif.Driver.Util
 import CkbVerif.Model.Window
+import CkbVerif.Model.WindowConsumers
 
-/-! Line-protocol driver for C20 (protocol: see harness/hcore/src/c20.rs). -/
+/-! Line-protocol driver for C20 (protocol: see harness/hcore/src/c20.rs for the table stream and
+harness/hnode/src/c20.rs for the node-level streams node / edge / fork / pool). -/
 namespace CkbVerif.Driver.C20
 open CkbVerif.Driver CkbVerif.Window
 
@@ -90,6 +92,26 @@ def step (s : St) (ts : List String) : St × String :=
   | ["nrestart"] =>
     let node := init s.w s.node.chain
     ({ s with node := node }, nodeLine node)
+  -- pool consumers of the view (node stream, family `pool`)
+  | ["status", id] =>
+    match parseNat? id with
+    | some x => (s, (txStatus s.node.view x).label)
+    | none => (s, "bad-op")
+  | "nswitchm" :: watch :: common :: branch =>
+    match parseNatList? watch, parseNat? common, branch.mapM parseNatList? with
+    | some wl, some c, some bs =>
+      if c < s.node.chain.length then
+        let r := switch s.w s.node c bs
+        -- detached_proposal_id restricted to the watched (pooled, Proposed) ids
+        let moved := wl.filter (fun x => r.2.contains x)
+        ({ s with node := r.1 }, s!"moved={showIds moved} {nodeLine r.1}")
+      else (s, "bad-op")
+    | _, _, _ => (s, "bad-op")
+  | ["ncommit", _] => (s, "ok")
+  | ["pool", ids] =>
+    match parseNatList? ids with
+    | some ids => (s, s!"proposed={showIds (ids.filter fun x => txStatus s.node.view x == .proposed)}")
+    | none => (s, "bad-op")
   | ["verify", ids] =>
     match parseNatList? ids with
     | some ids => (s, if commitOk s.w s.node.chain s.node.chain.length ids then "ok" else "invalid")
